@@ -278,6 +278,100 @@ def batch_blocking(facts, R):
             "iterator chain is %s" % chain, b.span, "chain: %s" % chain)
 
 
+ORDER_KEEPING = ("push", "len", "with_capacity", "into_iter", "capacity", "is_empty", "reserve", "iter")
+
+
+def _batch_async_ordered(facts, R, path, b, s, pushes):
+    """No index at all: handles are pushed while iterating `requests` in order, awaited while iterating the handle vector
+    in order, and each outcome is pushed onto the output vector, which is returned.  Position i of the output then belongs
+    to request i because a by-value Vec iteration yields elements in index order (stated assumption), provided every
+    iteration pushes exactly once and nothing else reorders either vector."""
+    from analysis.flow import must_cross
+    (p1, t1), (p2, t2) = pushes
+    workers, out = s.op(t1["args"][0]), s.op(t2["args"][0])
+    item1 = s.op(t1["args"][1])
+    spawned = [x for x in walk(item1) if x[0] == "agg" and x[1].startswith("coroutine:")]
+    caps = dict(spawned[0][3]) if spawned else {}
+
+    def it_item(e):
+        # (next(into_iter(V)) as Some).0[.k] -> (V, remaining projection)
+        proj = []
+        while e[0] == "field":
+            proj.append(e[2])
+            e = e[1]
+        if e[0] == "variant" and e[2] == "Some" and is_call(e[1], "next") and is_call(e[1][2][0], "into_iter") and "Vec" in e[1][2][0][1]:
+            return e[1][2][0][2][0], list(reversed(proj)), e[1]
+        return None, None, None
+    v1, pr1, n1 = it_item(caps.get("path", ("?",)))
+    v1b, pr1b, n1b = it_item(caps.get("body", ("?",)))
+    ok1 = bool(spawned) and v1 is not None and v1 == v1b and n1 == n1b and render(v1).endswith("requests") and pr1 == ["0", "0"] and pr1b == ["0", "1"] \
+        and is_call(item1, "spawn")
+    R.check(ok1, "index-travels", path, "handle i is spawned for request i", "workers.push(%s)" % render(item1)[:240], t1.get("span"), "for (path, body) in requests { workers.push(spawn(call(path, body))) }")
+    if spawned:
+        wb = facts.body(spawned[0][1].split(":", 1)[1])
+        wc = [(i, t) for i, t in wb.calls() if t["callee"]["name"] == "call_json_with_optional_timeout"]
+        R.check(len(wc) == 1, "index-travels", wb.path, "worker makes one call", "worker makes %d calls" % len(wc), wb.span)
+        for i, t in wc:
+            sw = Sym(wb)
+            a1, a2 = render(sw.op(t["args"][1])), render(sw.op(t["args"][2]))
+            R.check(a1.endswith(".path") and a2.endswith(".body"), "index-travels", wb.path, "worker calls with its own (path, body)", "call(%s, %s)" % (a1, a2), t.get("span"))
+    # second loop: awaits the element of a by-value iteration over the handle vector, pushes the outcome
+    polls = [(i, t) for i, t in b.calls() if t["callee"]["name"] == "poll" and "JoinHandle" in t["callee"]["path"]]
+    ok2 = len(polls) == 1
+    n2 = None
+    if ok2:
+        v2, pr2, n2 = it_item(s.op(polls[0][1]["args"][0]))
+        ok2 = v2 is not None and v2 == workers and pr2 == ["0"]
+    val = s.op(t2["args"][1])
+    R.check(ok2, "index-travels", path, "outcome i is awaited from handle i", "awaited: %s" % (render(s.op(polls[0][1]["args"][0]))[:160] if polls else None), t2.get("span"),
+            "for worker in workers { out.push(worker.await) }")
+    # the pushed value is this iteration's outcome (all definitions of it derive from this poll)
+    okv = True
+    if val[0] == "local":
+        for d in b.defs_of(val[1]):
+            if d[0] == "assign":
+                okv = okv and polls and any(x[0] == "call" and x[1].endswith("::poll") and len(x) > 3 and x[3] == polls[0][0] for x in walk(s.rvalue(d[3])))
+            else:
+                okv = False
+    else:
+        okv = bool(polls) and any(x[0] == "call" and x[1].endswith("::poll") and len(x) > 3 and x[3] == polls[0][0] for x in walk(val))
+    R.check(okv, "index-travels", path, "pushes this handle's outcome", "out.push(%s)" % render(val)[:160], t2.get("span"))
+    # exactly one push per iteration, in both loops
+    for (pi, pt), nx in (((p1, t1), n1), ((p2, t2), n2)):
+        if nx is None:
+            continue
+        N = nx[3]
+        some_t = None
+        for y in sorted(b.live_blocks()):
+            t = b.term(y)
+            if t["k"] == "switch":
+                e = s.op(t["on"])
+                if e[0] == "discr" and e[1] == nx:
+                    vm = _variants_of(b, facts, t, y)
+                    listed = {vm.get(v, str(v)): tb for v, tb in t["targets"]} if vm else {}
+                    some_t = listed.get("Some", t.get("otherwise"))
+        w = must_cross(b, [(some_t, 0)], [term_pt(b, N)] + list(return_points(b)), [term_pt(b, pi)], after_start=False) if some_t is not None else [N]
+        once = pi not in b.reachable(b.succs(pi), avoid=[N])
+        R.check(w is None and once, "index-travels", path, "exactly one push per element", "an iteration can finish without pushing, or push twice: positions shift (path %s)" % w, pt.get("span"), path=w)
+    # nothing else touches the two vectors, no reordering adapters, and `out` is what is returned
+    other = []
+    for i, t in b.calls():
+        if t["args"] and t["callee"]["name"] not in ORDER_KEEPING and ("Vec" in t["callee"]["path"] or "slice" in t["callee"]["path"]):
+            a0 = s.op(t["args"][0])
+            if a0 in (workers, out):
+                other.append(t["callee"]["name"])
+    chain = [t["callee"]["name"] for i, t in b.calls() if t["callee"].get("trait") == "std::iter::Iterator"]
+    R.check(not other and set(chain) <= {"next"}, "index-travels", path, "order-keeping operations only", "other operations on the handle/output vectors: %s; iterator adapters: %s" % (other, chain), b.span,
+            "push / into_iter / next only")
+    rv = s.local(0)
+    R.check(rv == out or (rv[0] == "variant" and False) or render(rv).endswith(render(out)), "index-travels", path, "returns the output vector", "returns %s" % render(rv)[:160], b.span)
+
+
+def _variants_of(b, facts, t, y):
+    from analysis.guards import _variants_for_discr
+    return _variants_for_discr(b, facts, t, y)
+
+
 def batch_async(facts, R, path):
     b = facts.body(path)
     s = Sym(b)
@@ -290,6 +384,8 @@ def batch_async(facts, R, path):
             v = Sym(c).local(0)
             if v[0] == "agg" and v[1] == "tuple" and len(v[3]) == 2 and any(x[0] == "agg" and x[1].startswith("coroutine:") for x in walk(v)):
                 mapped.append((c, v))
+    if len(pushes) == 2 and not stores and not mapped:
+        return _batch_async_ordered(facts, R, path, b, s, pushes)
     R.check(len(pushes) + len(mapped) == 1 and len(stores) == 1, "index-travels", path, "one push, one slot store",
             "pushes=%d mapped=%d stores=%d" % (len(pushes), len(mapped), len(stores)), b.span)
     if len(pushes) + len(mapped) != 1 or len(stores) != 1:
